@@ -619,6 +619,34 @@ class Life:
             exp = [o for o in base if o.size_matched > 0]
             if [id(x) for x in got] != [id(x) for x in exp]:
                 self.v("C15.d", ("strategy_orders", "matched-only", "-"), "matched_only returned %d orders, expected %d" % (len(got), len(exp)))
+            # every view x every (status filter, matched-only in {None, False, True}) combination against a plain scan
+            views = [("strategy_orders", lambda **kw: b.strategy_orders(st, **kw), lambda o: True)]
+            for sel in (1, 2):
+                views.append(("strategy_selection_orders", lambda sel=sel, **kw: b.strategy_selection_orders(st, sel, 0, **kw), lambda o, sel=sel: o.selection_id == sel and o.handicap == 0))
+            for cl in getattr(w, "clients", []):
+                views.append(("client_orders", lambda cl=cl, **kw: b.client_orders(cl, **kw), None))
+                views.append(("client_strategy_orders", lambda cl=cl, **kw: b.client_strategy_orders(cl, st, **kw), lambda o, cl=cl: o.client is cl))
+            every = list(b)
+            for vname, call, pred in views:
+                if vname == "client_orders":
+                    scope = [o for o in every if o.client is call.__defaults__[0]]
+                else:
+                    scope = [o for o in base if pred(o)]
+                for flt in (None, [OrderStatus.EXECUTABLE], [OrderStatus.EXECUTION_COMPLETE, OrderStatus.PENDING]):
+                    for mo in (None, False, True):
+                        kw = {}
+                        if flt is not None:
+                            kw["order_status"] = flt
+                        if mo is not None:
+                            kw["matched_only"] = mo
+                        try:
+                            got = call(**kw)
+                        except Exception as e:  # noqa
+                            self.v("C15.d", (vname, "exception", "-"), "%s(%s) raised %r" % (vname, kw, e))
+                            continue
+                        exp = [o for o in scope if (flt is None or o.status in flt) and (not mo or o.size_matched > 0)]
+                        if sorted(id(x) for x in got) != sorted(id(x) for x in exp):
+                            self.v("C15.d", (vname, "filter-combination", "-"), "%s(status=%s, matched_only=%r) returned %d orders, a plain scan gives %d" % (vname, flt and [f.name for f in flt], mo, len(got), len(exp)))
             for sel in (1, 2):
                 got = b.strategy_selection_orders(st, sel, 0, order_status=[OrderStatus.EXECUTABLE], matched_only=True)
                 exp = [o for o in base if o.selection_id == sel and o.handicap == 0 and o.status == OrderStatus.EXECUTABLE and o.size_matched > 0]
